@@ -6,7 +6,7 @@ use super::BRANCH_NODE_SIZE;
 use crate::{
     beatree::{
         allocator::PageNumber,
-        ops::bit_ops::{bitwise_memcpy, reconstruct_key},
+        ops::bit_ops::{bitwise_memcpy, reconstruct_key, separator_len},
         Key,
     },
     io::{page_pool::Page, FatPage, PagePool},
@@ -494,6 +494,23 @@ impl BranchNodeBuilder {
         let n_items = to - from;
         assert!(self.index + n_items <= self.branch.prefix_compressed() as usize);
 
+        // `updated` positions are relative to the beginning of the chunk.
+        let chunk_index = self.index;
+        let mut from = from;
+
+        // The first separator of a node can be shorter than the node's prefix due to trailing
+        // zero compression, in which case the base stores 0 bits for it. Its length in the new
+        // node cannot be derived from the base cell, push it as a standalone item.
+        if from == 0 && n_items != 0 {
+            let key = get_key(base, 0);
+            let len = separator_len(&key);
+            if len < base.prefix_len() as usize {
+                self.push(key, len, base.node_pointer(0));
+                from = 1;
+            }
+        }
+        let n_items = to - from;
+
         if self.index == 0 {
             // set the prefix if this is the first inserted item
             let key = get_key(base, from);
@@ -540,7 +557,11 @@ impl BranchNodeBuilder {
 
         // update page numbers of modified separators
         for (i, new_pn) in updated {
-            self.branch.set_node_pointer(self.index + i, new_pn.0)
+            self.branch.set_node_pointer(chunk_index + i, new_pn.0)
+        }
+
+        if n_items == 0 {
+            return;
         }
 
         // 3. copy and shift separators
